@@ -80,7 +80,7 @@ impl Prop for C14P {
     fn rule(&self) -> String {
         "destinations: owned arrays of every shape, every window (including empty ones placed anywhere) of the listed parents as TooDeeViewMut, and third-party implementors relying on the trait defaults. \
          copy_from_slice / clone_from_slice from slices of every length 0..=N^2+1: length == area => the destination holds the slice in row-major order and nothing else changed, otherwise panic and nothing changed. \
-         copy_from_toodee / clone_from_toodee from owned, strided-view and view_mut sources of every shape: equal size => copied, different size (e.g. (2,3) vs (3,2)) => panic. \
+         copy_from_toodee / clone_from_toodee from owned, strided-view, view_mut and directly built (over a longer slice) sources of every shape: equal size => copied, different size (e.g. (2,3) vs (3,2)) => panic. \
          copy_within for every source rectangle with corners in 0..=dim+1 and every destination corner in (0..=dim+1)^2 plus huge components: fits => the destination rectangle equals the source rectangle's PRIOR contents (model copies through a temporary; every overlap direction and the identical placement occur) and all other cells, including the parent outside a window, are unchanged; does not fit or corners reversed => panic and nothing changed. \
          Owned destinations reached through a history: every array of owning elements (shapes up to 3x3) that survives an operation in which the k-th call into caller code panicked and was caught (every operation instance, every k, and the fault-free runs) must accept clone_from_slice / clone_from_toodee of exactly num_cols*num_rows cells (and then hold them in row-major order) and reject one cell more or fewer. \
          Arrays and windows of the zero-sized () must accept and reject exactly the same arguments as arrays of ordinary elements. A case is (destination, operation, arguments); non-trivial = accepted call on a non-empty destination; distinct by the tuple."
@@ -155,7 +155,7 @@ fn run_from(rd: &Recv, ctx: &mut Ctx) {
         src_shapes.extend([(c, r), (r, c), (c + 1, r), (c, r + 1), (c - 1, r)]);
     }
     for (sc, sr) in src_shapes {
-        for k in 0..3u8 {
+        for k in 0..4u8 {
             let valid = (sc, sr) == (c, r);
             run_one(rd, Op::CopyFromToodee(k, sc, sr), "copy_from_toodee", valid, from_flat(src_slice(c * r)), ctx);
             run_one(rd, Op::CloneFromToodee(k, sc, sr), "clone_from_toodee", valid, from_flat(src_slice(c * r)), ctx);
